@@ -69,6 +69,15 @@ CHECKS = {
              "ratio <= r for every piece (cross-multiplied), blockages untouched.",
         note="r from {1.42,1.5,1.9,2,3}, n<=4 (6 thorough), input ratios <= 8, one or two starting rectangles, die with one blockage.",
         design="5/C11"),
+    'C03': dict(
+        text="Bounded symbolic model checking of the real create_initial_allocation (Die, Netlist, create_squares, fixed-rectangle "
+             "detection, overlap ratios, Allocation constructor) with module rectangle positions/widths symbolic: z3 proves for every "
+             "refinable cell and module ratio*cell-area = sum of overlaps against an independent min/max formula, listing iff "
+             "overlap>0 (or always with include-zero), full ownership of fixed cells by their module and absence elsewhere, and "
+             "allocated area = shape area on refinable cells.",
+        note="concrete 12x4 dies with <=1 region (also refined), one symbolic module at a time, plus symbolic-die cases with a "
+             "concrete module; one axis symbolic; terminals and self-overlapping modules outside.",
+        design="5/C03"),
     'C04': dict(
         text="Bounded symbolic model checking of the real netlist reader and writer: documents of every module kind with all numbers "
              "symbolic are loaded by the real Netlist, dumped by the real dump_yaml_* functions, reloaded, and z3 proves on every path "
